@@ -48,7 +48,7 @@ DESCRIPTION = {
     "stubs": ["SimProvider._get_table_columns (dict-backed, yields the baton, injects failures)", "thread scheduling (baton)"],
     "assumptions": [
         "dependencies (sqlfluff, sqlparse, networkx) are atomic with respect to pre-emption",
-        "crash points are call-out boundaries (provider lookups, taps), not arbitrary bytecodes",
+        "crash points are call-out boundaries (provider lookups, taps) and every source line of LineageRunner._eval itself; not arbitrary bytecodes, and never inside a cleanup handler",
         "the isolated reference is the same analysis alone in a fresh fork of the same zygote (same hash seed): a wrong-but-stable answer is invisible here",
         "each non-default provider is used by one thread at a time ('their own providers')",
     ],
@@ -324,6 +324,26 @@ def run_one(spec: dict) -> dict:
     w.sched = sched
     providers = [build_provider(ps) for ps in spec["providers"]]
     default_prov = [d for d in runner_mod.LineageRunner.__init__.__defaults__ if isinstance(d, mp_mod.MetaDataProvider)][0]
+    def on_yield(t, kind, detail):
+        # crash point inside the runner's own body: an exception lands at the k-th source line executed by
+        # LineageRunner._eval of this run (the analogue of a KeyboardInterrupt / timeout hitting the caller there).
+        # Only _eval's own lines - never inside a cleanup handler, where no implementation could cope.
+        if kind != "line" or not isinstance(detail, tuple) or detail[0] != "_eval":
+            return
+        rec = t.ctx.get("run")
+        if rec is None:
+            return
+        k = rec.get("eval_lines", 0)
+        rec["eval_lines"] = k + 1
+        for f in rec["run"].get("faults", ()):
+            if f["kind"] == "line_raise" and f["k"] == k and not f.get("_fired"):
+                f["_fired"] = True
+                rec["fault_fired"] = True
+                w.fault("line_raise")
+                w.log(t.idx, "fault", ["line_raise", k])
+                raise InjectedFault(f"injected at line event {k} of _eval")
+
+    sched.on_yield = on_yield
     tapmod.set_tap(w.on_tap)
     if not tapmod.ENABLED:
         raise HarnessError("taps are not enabled (SQLLINEAGE_VERIF!=1 at import)")
@@ -537,6 +557,9 @@ def gen_run(g, tag, provider, allow_faults=True, legacy_p=0.5, special=True):
         elif r < 0.46:
             faults.append({"kind": "tap_raise", "event": g.choice(["stmt.begin", "stmt.analyzed", "stmt.end", "stmt.end", "run.assembled"]),
                            "index": g.choice([-1, 0, 1, 2]), "exc": "InjectedFault"})
+        elif r < 0.58:
+            # fires only in worlds that trace runner.py at line level (2/3 of them)
+            faults.append({"kind": "line_raise", "k": g.randrange(0, 60)})
     n_acc = g.choice([2, 3, 4])
     accessors = g.sample(ACC_POOL, n_acc)
     if g.random() < 0.3:
@@ -603,7 +626,8 @@ FIXED_WORKLOAD_SEEDS = [101, 102, 103, 104, 105, 106, 107, 108]
 def sweep_specs() -> list[dict]:
     """Full fault sweep over a fixed workload: for every script, a bad statement at every
     position k, a provider failure at every lookup index j < 10, a tap failure at every
-    statement boundary; each followed by a clean run on the same provider."""
+    statement boundary, an exception at each of the first 36 source lines executed by
+    LineageRunner._eval; each followed by a clean run on the same provider."""
     out = []
     for ws in FIXED_WORKLOAD_SEEDS:
         g = stream(ws, "c12-sweep")
@@ -631,15 +655,21 @@ def sweep_specs() -> list[dict]:
         v = json.loads(json.dumps(base))
         v["faults"] = [{"kind": "tap_raise", "event": "run.assembled", "index": -1, "exc": "InjectedFault"}]
         variants.append(v)
+        nplain = len(variants)
+        for k in range(0, 36):
+            v = json.loads(json.dumps(base))
+            v["faults"] = [{"kind": "line_raise", "k": k}]
+            variants.append(v)
         for vi, v in enumerate(variants):
             v["tag"] = f"w{ws}v{vi}"
-            for kind in ("sim", "dummy"):
+            lr = vi >= nplain
+            for kind in (("sim",) if lr else ("sim", "dummy")):
                 out.append({
                     "seed": ws * 1000 + vi,
                     "providers": [{"kind": kind, "meta": dict(BASE_META)}],
                     "threads": [{"runs": [v, json.loads(json.dumps(follow)), json.loads(json.dumps(base))]}],
                     "sched": "sticky",
-                    "line": [],
+                    "line": ["runner"] if lr else [],
                     "horizon": 100,
                     "sweep": True,
                 })
